@@ -726,14 +726,62 @@ func runC45(c *an.Ctx) {
 			for _, rm := range an.Calls(f, an.M("os", "", "Remove"), an.M("os", "", "RemoveAll")) {
 				nRm++
 				// the removed name is an element of listed[cacheSize:]
+				// — either an element of the slice listed[cacheSize:], or listed[i]
+				// with an index that is never below cacheSize
 				ok := false
-				for _, l := range an.Deps(an.Args(rm)[0], &an.DepOpts{Stop: func(x ssa.Value) bool { _, is := x.(*ssa.Slice); return is }}) {
-					if sl, is := l.(*ssa.Slice); is && sl.Low != nil && sl.High == nil {
-						if fl, _ := an.LoadedField(sl.Low); fl == fSize {
-							ok = true
+				isTail := func(v ssa.Value) bool {
+					sl, is := v.(*ssa.Slice)
+					if !is || sl.Low == nil || sl.High != nil {
+						return false
+					}
+					fl, _ := an.LoadedField(sl.Low)
+					return fl == fSize
+				}
+				elemLoad := func(x ssa.Value) *ssa.IndexAddr {
+					if u, isU := x.(*ssa.UnOp); isU && u.Op == token.MUL {
+						if ia, isIA := u.X.(*ssa.IndexAddr); isIA {
+							return ia
 						}
 					}
+					return nil
 				}
+				nGood, nBad := 0, 0
+				for _, l := range an.Deps(an.Args(rm)[0], &an.DepOpts{Stop: func(x ssa.Value) bool {
+					_, is := x.(*ssa.Slice)
+					return is || elemLoad(x) != nil
+				}}) {
+					if isTail(l) {
+						nGood++
+						continue
+					}
+					ia := elemLoad(l)
+					if ia == nil || !an.IsString(l.Type()) {
+						continue
+					}
+					// ... or the element is read only where index >= cacheSize was tested
+					idx := ia.Index
+					tested := an.CmpEdges(f, func(op token.Token, a, b ssa.Value) (bool, bool) {
+						if b == idx {
+							a, b, op = b, a, an.SwapCmp(op)
+						}
+						if fl, _ := an.LoadedField(b); a != idx || fl != fSize {
+							return false, false
+						}
+						switch op {
+						case token.GEQ, token.GTR:
+							return true, false
+						case token.LSS:
+							return false, true
+						}
+						return false, false
+					})
+					if isTail(ia.X) || c45AtLeast(idx, fSize, map[ssa.Value]bool{}) || (len(tested) > 0 && an.GuardedBy(f, nil, ia, tested)) {
+						nGood++
+					} else {
+						nBad++
+					}
+				}
+				ok = nGood > 0 && nBad == 0
 				c.Check(ok, "O5", "R-FLOW", an.FuncName(f), "remove-only-beyond-cacheSize", rm.Pos(),
 					"cleanup removes only listed[cacheSize:] (the oldest files)",
 					"cleanup removes a cache file that is not taken from listed[cacheSize:]: the newest valid version can be deleted")
@@ -1019,4 +1067,40 @@ func c45ValidateCalls(f *ssa.Function, pk string) []ssa.CallInstruction {
 		}
 	}
 	return out
+}
+
+// c45AtLeast: the int value v is never below the value of field fl: it is a
+// read of fl, such a value plus a non-negative constant, or a loop variable
+// (phi) that starts at such a value and is only stepped upwards.
+func c45AtLeast(v ssa.Value, fl *types.Var, assumed map[ssa.Value]bool) bool {
+	if assumed[v] {
+		return true
+	}
+	if f, _ := an.LoadedField(v); f != nil && f == fl {
+		return true
+	}
+	switch v := v.(type) {
+	case *ssa.BinOp:
+		if v.Op != token.ADD {
+			return false
+		}
+		nonNeg := func(x ssa.Value) bool {
+			k, ok := an.ConstOf(x)
+			if !ok || k.Kind() != constant.Int {
+				return false
+			}
+			return constant.Sign(k) >= 0
+		}
+		return (nonNeg(v.Y) && c45AtLeast(v.X, fl, assumed)) || (nonNeg(v.X) && c45AtLeast(v.Y, fl, assumed))
+	case *ssa.Phi:
+		assumed[v] = true
+		for _, e := range v.Edges {
+			if !c45AtLeast(e, fl, assumed) {
+				delete(assumed, v)
+				return false
+			}
+		}
+		return true
+	}
+	return false
 }
